@@ -199,6 +199,7 @@ pub fn responder(addr: u8, r: &mut Rng, tsdr_cap: u16) -> SlaveCfg {
         honour_watchdog: false,
         fdl_status_code: if r.chance(1, 4) { *r.pick(&[1u8, 2, 3, 8, 9, 10, 12, 13]) } else { 0 },
         delimiter_payload: false,
+        sd2_always: r.chance(1, 6),
     }
 }
 
@@ -464,6 +465,8 @@ fn pick_len(r: &mut Rng, big: bool, max: usize) -> usize {
             2 => max,
             3 => max - 1,
             4 => r.range(2, 16) as usize,
+            // 8 data bytes: the fixed-length frame format SD3 (and its SD2 twin with LE = 11)
+            5 => 8,
             _ => r.range(0, max as u64) as usize,
         }
     } else {
@@ -472,6 +475,7 @@ fn pick_len(r: &mut Rng, big: bool, max: usize) -> usize {
             1 => 1,
             2 => r.range(17, 64) as usize,
             3 => max,
+            4 => 8,
             _ => r.range(1, 16) as usize,
         }
     };
@@ -630,6 +634,7 @@ pub fn dp_world(r: &mut Rng, tier: Tier, o: &DpOpts) -> (WorldCfg, OracleCfg, Ve
             honour_watchdog: r.chance(1, 2),
             fdl_status_code: 0,
             delimiter_payload: r.chance(1, 5),
+            sd2_always: r.chance(1, 6),
         };
         if o.mismatch && r.chance(1, 6) {
             match r.below(4) {
@@ -1042,6 +1047,7 @@ pub fn adv_world(r: &mut Rng, tier: Tier, o: &AdvOpts) -> (WorldCfg, OracleCfg, 
                                 honour_watchdog: r.chance(1, 2),
                                 fdl_status_code: 0,
                                 delimiter_payload: r.chance(1, 5),
+                                sd2_always: r.chance(1, 6),
                             });
                         }
                     }
@@ -1771,7 +1777,20 @@ pub fn generate(check: &str, tier: Tier, base_seed: u64, k: u64) -> Scenario {
                 }
                 (w, o, Vec::<Fault>::new())
             } else {
-                adv_world(&mut r, tier, &AdvOpts { polite: true, apps: false, hostile: false, log_all: false })
+                let (w, o, mut f) = adv_world(&mut r, tier, &AdvOpts { polite: true, apps: false, hostile: false, log_all: false });
+                // the application takes the station off the bus and brings it back (the same
+                // station object): what it knew about the ring before must not count afterwards
+                if r.chance(1, 3) {
+                    let tslot_us = bit_us(w.baud, u64::from(w.stations[0].slot_bits)).max(1);
+                    let mut t = r.range(w.end_us / 8, w.end_us / 2);
+                    for _ in 0..r.range(1, 3) {
+                        f.push(Fault { trig: Trigger::At(t), kind: FaultKind::GoOffline { station: 0 }, delay_us: 0 });
+                        t += r.range(1, 400) * tslot_us;
+                        f.push(Fault { trig: Trigger::At(t), kind: FaultKind::GoOnline { station: 0 }, delay_us: 0 });
+                        t += r.range(200, 3000) * tslot_us;
+                    }
+                }
+                (w, o, f)
             }
         }
         "C06" => {
